@@ -22,6 +22,7 @@ META = {
     "not_decided": ["the nodelist equals the RFC's for every (query, document) pair (value-level)"],
 }
 META["explanation"] += " R3 also: Pointer::key / Pointer::idx extend the parent's path on every result alternative. R6 selector text is rewritten in one left-to-right pass (no str::replace chain whose first replacement can form the second pattern; positive and negative control in the fixture crate). R7 slice and index selectors select exactly the RFC's elements (region analysis of C11-R6, shared)."
+META["explanation"] += " R8 the nodelist concatenation table of C02-R1 (shared): a union keeps every selector's nodes. R9 `<Value as Queryable>::get` resolves names with serde_json's by-name lookup only (never a pointer/index lookup). R10 literals denote exactly the value written (no cast or guard between the AST and T::from)."
 
 Q = "crate::query::Query"
 M = "crate::parser::model::"
